@@ -1,7 +1,7 @@
 (* C19 — property theorems.  Statements only: each is closed by [exact] of a lemma proved in
    coq/C19/ (on top of coq/C01/Prob), followed by Print Assumptions. *)
-From Coq Require Import QArith ZArith List Bool Permutation.
-From Scenic Require Import C01.Prob C01.ProbProofs C01.ChoiceProofs C19.Choose C19.ChooseProofs.
+From Coq Require Import QArith ZArith List Bool Permutation Qround.
+From Scenic Require Import C01.Prob C01.ProbProofs C01.ChoiceProofs C01.RangeProofs C19.Choose C19.ChooseProofs C19.RangeDraws.
 Import ListNotations.
 Open Scope Q_scope.
 
@@ -88,11 +88,78 @@ Theorem C19_runtime_draw_product : forall (A : Type) lo hi (k : Z -> ptree A) (h
 Proof. exact @runtime_draw_product. Qed.
 Print Assumptions C19_runtime_draw_product.
 
+(* ---- round 3: run-time DiscreteRange with arbitrary rational / state-dependent endpoints, weighted form ---- *)
+(* the statement draws once from the integers between the endpoint values at that moment *)
+Theorem C19_exec_draw : forall P maxSteps f lo hi base rest s, Nat.leb maxSteps (time s) = false ->
+  exec P maxSteps (S f) (SDrawTake lo hi base :: rest) s =
+  bind (ndrange_tree (bval lo s) (bval hi s))
+       (fun x => exec P maxSteps f rest (mkState (S (time s)) x ((time s, (base + x)%Z) :: log s))).
+Proof. exact exec_draw. Qed.
+Print Assumptions C19_exec_draw.
+(* that draw yields exactly the integers k with lo <= k <= hi, uniformly (1 / their number) *)
+Theorem C19_ndrange_law : forall lo hi k,
+  mass (fun v => Z.eqb v k) (ndrange_tree lo hi) ==
+  if in_range lo hi k then 1 / inject_Z (Qfloor hi - Qceiling lo + 1) else 0.
+Proof. exact ndrange_law. Qed.
+Print Assumptions C19_ndrange_law.
+Theorem C19_in_range_spec : forall lo hi k,
+  in_range lo hi k = true <-> (Qceiling lo <= k <= Qfloor hi)%Z.
+Proof. exact in_range_spec. Qed.
+Print Assumptions C19_in_range_spec.
+Theorem C19_runtime_ndrange_product : forall (A : Type) lo hi (k : Z -> ptree A) (h : A -> Q),
+  (Qceiling lo <= Qfloor hi)%Z ->
+  let n := Z.to_nat (Qfloor hi - Qceiling lo + 1) in
+  expect h (bind (ndrange_tree lo hi) k) ==
+  wsum (fun v => expect h (k v)) (zrange (Qceiling lo) n) / inject_Z (Z.of_nat n).
+Proof. exact @runtime_ndrange_product. Qed.
+Print Assumptions C19_runtime_ndrange_product.
+Theorem C19_runtime_ndrange_empty : forall (A : Type) lo hi (k : Z -> ptree A),
+  (forall j, in_range lo hi j = false) -> bind (ndrange_tree lo hi) k = Rej.
+Proof. exact @runtime_ndrange_empty. Qed.
+Print Assumptions C19_runtime_ndrange_empty.
+(* weighted range used directly: low + i with probability w_i / sum of the weights, nothing else *)
+Theorem C19_exec_wrange : forall P maxSteps f lo ws base rest s, Nat.leb maxSteps (time s) = false ->
+  exec P maxSteps (S f) (SWRangeTake lo ws base :: rest) s =
+  bind (wrange_tree lo ws)
+       (fun x => exec P maxSteps f rest (mkState (S (time s)) x ((time s, (base + x)%Z) :: log s))).
+Proof. exact exec_wrange. Qed.
+Print Assumptions C19_exec_wrange.
+Theorem C19_wrange_prob : forall lo ws i, (i < length ws)%nat ->
+  mass (fun z => Z.eqb z (lo + Z.of_nat i)) (wrange_tree lo ws) == nth i ws 0 / qsum ws.
+Proof. exact wrange_prob. Qed.
+Print Assumptions C19_wrange_prob.
+Theorem C19_wrange_prob_out : forall lo ws z, (z < lo \/ lo + Z.of_nat (length ws) <= z)%Z ->
+  mass (fun x => Z.eqb x z) (wrange_tree lo ws) == 0.
+Proof. exact wrange_prob_out. Qed.
+Print Assumptions C19_wrange_prob_out.
+Theorem C19_runtime_wrange_product : forall (A : Type) lo ws (k : Z -> ptree A) (h : A -> Q),
+  expect h (bind (wrange_tree lo ws) k) == expect (fun i => expect h (k (lo + i)%Z)) (weighted_tree ws).
+Proof. exact @runtime_wrange_product. Qed.
+Print Assumptions C19_runtime_wrange_product.
+
+(* non-vacuity: at step 1, x = DiscreteRange(currentTime + 1/4, currentTime + 7/4) can only give 2;
+   DiscreteRange(1/2, 5/2) gives 1 or 2; then DiscreteRange(x/2 - 1/2, x/2 + 1) computed from that x
+   (x = 1: 0 or 1; x = 2: 1 or 2); then the weighted range 3..5 with weights 1, 2, 1 *)
+Definition ex_P3 : program :=
+  [ mkBeh GTrue [STake 7; SDrawTake (mkBnd (1#4) 1 0) (mkBnd (7#4) 1 0) 100;
+                 SDrawTake (mkBnd (1#2) 0 0) (mkBnd (5#2) 0 0) 200;
+                 SDrawTake (mkBnd (-1#2) 0 (1#2)) (mkBnd 1 0 (1#2)) 300;
+                 SWRangeTake 3 [1; 2; 1] 400] ].
+Example C19_example_ranges :
+  map (fun x => (snd (fst x), match snd x with Some s => rev (map snd (log s)) | None => [] end))
+      (paths (run_main ex_P3 8 20 0)) =
+    [(1 # 16, [7; 102; 201; 300; 403]%Z); (1 # 8, [7; 102; 201; 300; 404]%Z); (1 # 16, [7; 102; 201; 300; 405]%Z);
+     (1 # 16, [7; 102; 201; 301; 403]%Z); (1 # 8, [7; 102; 201; 301; 404]%Z); (1 # 16, [7; 102; 201; 301; 405]%Z);
+     (1 # 16, [7; 102; 202; 301; 403]%Z); (1 # 8, [7; 102; 202; 301; 404]%Z); (1 # 16, [7; 102; 202; 301; 405]%Z);
+     (1 # 16, [7; 102; 202; 302; 403]%Z); (1 # 8, [7; 102; 202; 302; 404]%Z); (1 # 16, [7; 102; 202; 302; 405]%Z)] /\
+  run_main [mkBeh GTrue [SDrawTake (mkBnd (1#4) 0 0) (mkBnd (3#4) 0 0) 0]] 8 20 0 = Rej.
+Proof. vm_compute. split; reflexivity. Qed.
+
 (* non-vacuity: A enabled from step 1, B and C always; choose {A:1, B:2, C:1/2} then shuffle {A:1, B:3} *)
 Definition ex_P : program :=
   [ mkBeh (GTimeGe 1) [STake 1]; mkBeh GTrue [STake 2]; mkBeh GTrue [STake 3; STake 4];
     mkBeh GTrue [SChoose [(0%nat, 1); (1%nat, 2); (2%nat, 1 # 2)]; SShuffle [(0%nat, 1); (1%nat, 3)];
-                 SDrawTake 0 2 10; SRequire (1 # 4) 0; STake 20] ].
+                 SDrawTake (mkBnd 0 0 0) (mkBnd 2 0 0) 10; SRequire (1 # 4) 0; STake 20] ].
 Example C19_example :
   length (paths (run_main ex_P 8 20 3)) = 24%nat /\
   Qred (rejmass (run_main ex_P 8 20 3)) = 1 # 12 /\
